@@ -89,6 +89,47 @@ def adjacent_ulp_spec(rng):
     return spec
 
 
+def limited_resume_history(prop, limits=(10 ** 6,)):
+    """a history with a guess limit on the middle session that is never reached: quit inside a Markov level; `--load --limit N` finishes
+    the level, goes on, and is quit at a later (plain) pre-terminal; `--load` again.  The three sessions together are the uninterrupted
+    stream - the finished level is not replayed by the third one"""
+    L4 = ['a', 'b', 'c', 'd']
+    spec = {'terminals': {'D1': [['1', '0.45'], ['2', '0.3'], ['3', '0.2']]}, 'grammar': [['M', '0.5'], ['D1', '0.5']],
+            'omen_prob': [['1', '0.4'], ['0', '0.25']], 'prince': [], 'mode': 'dyadic', 'encoding': 'utf-8',
+            'omen': {'ngram': 2, 'alphabet': L4, 'ip': [[0, x] for x in L4], 'ep': [[0, x] for x in L4],
+                     'cp': [[0, x + y] for x in L4 for y in L4], 'ln': [10, 0, 1], 'keyspace': [[l, 1] for l in range(0, 19)]}}
+    d = common.write_ruleset(os.path.join(common.scratch_dir('rules'), 'c15lim'), spec)
+    pcfg = common.load_grammar(d)
+    units = ss.units_of(pcfg)
+    full = [l for u in units for l in u[2]]
+    ui = next(k for k, u in enumerate(units) if u[0] == 'm' and u[2])
+    n = len(units[ui][2])
+    big = 'm' * (len(full) + 2 * len(units) + 5)
+    viol, runs = [], 0
+    for lim in limits:
+        for j in (0, n - 2):
+            sf = os.path.join(common.scratch_dir('sess'), f"c15lim_{j}.sav")
+            for ext in ('.sav', '.omn'):
+                if os.path.exists(sf[:-4] + ext):
+                    os.remove(sf[:-4] + ext)
+            wit = {'limited_resume_history': True, 'limit': lim, 'guess': j}
+            try:
+                h1 = ss.run_session(pcfg, sf, C12.new_cfg(), False, quit_schedule(units, ui, j), [('line', 'q', False)])
+                h2 = ss.run_session(common.load_grammar(d), sf, load_cfg(sf), True, 'm' * (n - 1 - j + 2) + 'kk' + big, [('line', 'q', False)], limit=lim)
+                hs = [h1['out'], h2['out']]
+                if h2['state'] == 'exited':
+                    hs.append(ss.run_session(common.load_grammar(d), sf, load_cfg(sf), True, big, [])['out'])
+            except Exception as e:
+                viol.append({'property': prop, 'kind': 'session-raised', 'error': repr(e)[:200], 'witness': wit})
+                continue
+            runs += len(hs)
+            tot = [l for o in hs for l in o]
+            if tot != full:
+                viol.append({'property': prop, 'kind': 'omen-replay' if len(tot) > len(full) else 'lost-after-resume', 'emitted': len(tot), 'full': len(full),
+                             'sessions': [len(o) for o in hs], 'history': 'quit in a Markov level / --load --limit (not reached) quit later / --load', 'witness': wit})
+    return viol, runs
+
+
 def run(ctx):
     rng = ctx.rng
     common.use_impl()
@@ -271,6 +312,10 @@ def run(ctx):
     vs_cli, info_cli = cli_interleaved_sessions('C15', 'c15audit', big_markov_spec())
     viol += vs_cli
     cases += 1
+    v_lim, r_lim = limited_resume_history('C15')
+    viol += v_lim
+    cases += r_lim
+    dist['limited_middle_sessions'] = r_lim
     dist['cli_interleaved'] = info_cli
     if ctx.driver_ok:
         # `ss.run1` lines carry (pos, opt, omn) of the files the session was loaded from
@@ -312,6 +357,9 @@ def run(ctx):
 
 
 def replay(ctx, payload):
+    if (payload.get('violation', {}).get('witness') or {}).get('limited_resume_history'):
+        common.use_impl()
+        return limited_resume_history(payload.get('property', 'C15'))[0]
     w = payload.get('violation', {}).get('witness') or {}
     if 'cli_history' in w:
         common.use_impl()
